@@ -43,6 +43,13 @@ pub fn cfg_for(gen_name: &str) -> GenCfg {
             c.big_offsets = false;
             c
         }
+        "full-nobig-x" => {
+            // as full-nobig; `ref.func` targets may be declared by exports alone
+            let mut c = GenCfg::full();
+            c.big_offsets = false;
+            c.export_declares = true;
+            c
+        }
         "names" => {
             let mut c = GenCfg::full();
             c.names = 2;
